@@ -192,7 +192,14 @@ class Instance:
             if f_default is MISSING:
                 f_default = self._self_builder.namespace.get(f_name, MISSING)
             if f_default is not MISSING:
-                f_default = _default(f_type, f_default, self.get_self_config())
+                f_default = _default(
+                    f_type,
+                    f_default,
+                    self.get_self_config(),
+                    # field-level serialize / serialization_strategy options
+                    # decide how the default value is rendered
+                    self._self_builder.metadatas.get(f_name),
+                )
 
             has_default = (
                 f.default is not MISSING or f.default_factory is not MISSING
@@ -308,10 +315,17 @@ class _DefaultValueDialect(Dialect):
     serialize_by_alias = False
 
 
-def _default(f_type: Type, f_value: Any, config_cls: Type[BaseConfig]) -> Any:
+def _default(
+    f_type: Type,
+    f_value: Any,
+    config_cls: Type[BaseConfig],
+    metadata: Optional[Mapping[str, Any]] = None,
+) -> Any:
     @dataclass
     class CC(DataClassJSONMixin):
-        x: f_type = f_value  # type: ignore
+        x: f_type = field(  # type: ignore
+            default=f_value, metadata=dict(metadata or {})
+        )
 
         class Config(config_cls):  # type: ignore
             code_generation_options = [ADD_DIALECT_SUPPORT]
